@@ -361,6 +361,20 @@ func (ms *Modules) process() []error {
 	// names are linked when they are reached; a loaded file may hold
 	// others as well, which are converted like all modules and therefore
 	// have to be linked, too: repeat until a pass adds none.
+	// The links that an earlier run established between import and include
+	// statements and modules are not kept: where linking stops at an error,
+	// what this run sees must not depend on what an earlier run, of what
+	// was loaded then, had linked already.
+	for _, mm := range []map[string]*Module{ms.Modules, ms.SubModules} {
+		for _, m := range mm {
+			for _, i := range m.Include {
+				i.Module = nil
+			}
+			for _, i := range m.Import {
+				i.Module = nil
+			}
+		}
+	}
 	linked := map[*Module]bool{}
 	for {
 		mods = mods[:0]
